@@ -349,7 +349,8 @@ def run_multi(ctx):
             for nme in rnames:
                 rargs += ['-r', nme]
             payload = json.dumps({'rules': texts, 'data': [data]}).encode()
-            confs = [('files', ['validate'] + rargs + ['-d', 'd.json'], None),
+            confs = [('files-S-all', ['validate'] + rargs + ['-d', 'd.json', '-S', 'all'], None),
+                     ('files', ['validate'] + rargs + ['-d', 'd.json'], None),
                      ('files-v', ['validate'] + rargs + ['-d', 'd.json', '-v'], None),
                      ('files-o-json', ['validate'] + rargs + ['-d', 'd.json', '-o', 'json'], None),
                      ('files-s-json', ['validate'] + rargs + ['-d', 'd.json', '--structured', '-o', 'json', '-S', 'none'], None),
@@ -367,9 +368,29 @@ def run_multi(ctx):
                     j['stdin'] = stdin
                 jobs.append(j); meta.append((''.join(combo), lab))
     res = e2e.run_many(jobs)
-    by = {}
+    by, outs_by = {}, {}
     for (combo, lab), r in zip(meta, res):
         by.setdefault(combo, {})[lab] = r[0]
+        outs_by.setdefault(combo, {})[lab] = r[1]
+    # the rule names per status: the console tables (one block per rules file) against the combined structured report
+    for combo, outs in outs_by.items():
+        try:
+            rep = json.loads(outs['files-s-json'].decode())[0]
+            want = sets_from_report(rep)
+        except Exception as e:
+            ctx.failing('rules files with outcomes %s: --structured -o json is not a well-formed report: %s' % (combo, e), {'class': 'format-independence', 'combo': combo}, found=True)
+            continue
+        got = {'PASS': set(), 'FAIL': set(), 'SKIP': set()}
+        for b in console_blocks(outs['files-S-all'].decode('utf-8', 'replace')):
+            for line in b['lines']:
+                m = re.match(r'^(\S+)\s+(PASS|FAIL|SKIP)$', line)
+                if m:
+                    got[m.group(2)].add(m.group(1).rsplit('/', 1)[-1])
+        gotl = {k2: sorted(v) for k2, v in got.items()}
+        wantl = {k2: sorted(set(want[k2])) for k2 in ('PASS', 'FAIL', 'SKIP')}
+        if gotl != wantl:
+            ctx.failing('rules files with outcomes %s: the console tables list %s, the structured report %s' % (combo, gotl, wantl),
+                        {'class': 'format-independence', 'combo': combo, 'bodies': BODY, 'data': data}, found=True)
     for combo, codes in by.items():
         want = 19 if 'F' in combo else 0
         bad = {lab: c for lab, c in codes.items() if c != want}
@@ -422,6 +443,34 @@ def run_multi_data(ctx):
                            ('s-junit', ['--structured', '-o', 'junit', '-S', 'none']), ('dir', None)):
             args = base + extra if extra is not None else ['validate', '-r', 'r.guard', '-d', 'data', '-S', 'all']
             jobs.append({'args': args, 'cwd': d}); meta.append((combo, lab))
+    # the same document reached twice (named twice; through its directory and by name): every rendering reports it twice
+    dup_jobs = []
+    for oc in 'FG':
+        dd = os.path.join(ctx.wd, 'mdup' + oc)
+        e2e.write_files(dd, {'r.guard': rules, 'data/d0.json': json.dumps(docs[oc]), 'data/d1.json': json.dumps(docs['P'])})
+        for dargs in (['-d', 'data/d0.json', '-d', 'data/d0.json'], ['-d', 'data', '-d', 'data/d0.json'], ['-d', 'data/d0.json', '-d', 'data']):
+            for lab, extra in (('s-json', ['--structured', '-o', 'json', '-S', 'none']), ('s-sarif', ['--structured', '-o', 'sarif', '-S', 'none']),
+                               ('s-junit', ['--structured', '-o', 'junit', '-S', 'none'])):
+                dup_jobs.append((oc, tuple(dargs), lab, {'args': ['validate', '-r', 'r.guard'] + dargs + extra, 'cwd': dd}))
+    dres = e2e.run_many([j for _, _, _, j in dup_jobs])
+    dby = {}
+    for (oc, dargs, lab, _), r in zip(dup_jobs, dres):
+        dby.setdefault((oc, dargs), {})[lab] = r
+    for (oc, dargs), runs in dby.items():
+        info = {'class': 'format-independence', 'rules': rules, 'data_args': list(dargs), 'outcome': oc}
+        try:
+            reps = json.loads(runs['s-json'][1].decode())
+            nwant = sum(sum(count_checks(x) for x in fr['not_compliant']) for fr in reps if fr['status'] == 'FAIL')
+            sj = json.loads(runs['s-sarif'][1].decode())
+            nres = sum(len(r_.get('results', [])) for r_ in sj.get('runs', []))
+            if nres != nwant:
+                ctx.failing('a document reached twice (%s): SARIF has %d results for %d failing checks reported by --structured -o json' % (list(dargs), nres, nwant), dict(info, mode='s-sarif'), found=True)
+            root = ET.fromstring(runs['s-junit'][1].decode())
+            nsuites = len(list(root.iter('testsuite')))
+            if nsuites != len(reps):
+                ctx.failing('a document reached twice (%s): JUnit has %d test suites for %d file reports of --structured -o json' % (list(dargs), nsuites, len(reps)), dict(info, mode='s-junit'), found=True)
+        except Exception as e:
+            ctx.failing('a document reached twice (%s): a structured output is not well-formed: %s' % (list(dargs), str(e)[:200]), info, found=True)
     res = e2e.run_many(jobs)
     by = {}
     for (combo, lab), r in zip(meta, res):
